@@ -623,6 +623,8 @@ class LookupMonitor(Monitor):
                       f"{min(len(ta.lineage_id_to_nodes), 15)}/{k}")
         if rec.out.ok and k in ("undo", "redo") and rec.out.ret:
             self.count(f"after-{k}")
+        if rec.out.ok and k == "features":
+            self.count("id-recomputations")
         return out
 
 
@@ -1140,6 +1142,17 @@ class ReadOnlyMonitor(Monitor):
                 t, wd / f"b{uniq}.csv", use_display_names=True)
             ops["export_to_csv/subset"] = lambda: export_to_csv(
                 t, wd / f"c{uniq}.csv", node_ids=sub)
+            # the selection handed over as a list, also as the very list object that a query
+            # of the tracks returned
+            own = next(iter(t.track_id_to_node.values()))
+            ops["export_to_csv/subset-as-list"] = lambda: export_to_csv(
+                t, wd / f"cl{uniq}.csv", node_ids=sorted(sub))
+            ops["export_to_csv/subset-own-list"] = lambda: export_to_csv(
+                t, wd / f"co{uniq}.csv", node_ids=own)
+            ops["export_to_geff/subset-own-list"] = lambda: export_to_geff(
+                t, wd / f"go{uniq}.zarr", node_ids=own)
+            ops["filter_graph_with_ancestors/own-list"] = lambda: filter_graph_with_ancestors(
+                t.graph, own)
             ops["export_to_csv/colors"] = lambda: export_to_csv(
                 t, wd / f"d{uniq}.csv",
                 color_dict={n: np.array([0.1, 0.5, 0.9, 1.0]) for n in nodes})
